@@ -1020,7 +1020,16 @@ class Scene(Geometry3D):
         hull : trimesh.Trimesh
           Trimesh object which is a convex hull of all meshes in scene
         """
-        points = util.vstack_empty([m.vertices for m in self.dump()])  # type: ignore
+        # 2D paths which were not moved out of their plane are
+        # dumped with 2D vertices so put those on the Z=0 plane
+        points = util.vstack_empty(
+            [
+                m.vertices
+                if m.vertices.shape[1] == 3
+                else np.column_stack((m.vertices, np.zeros(len(m.vertices))))
+                for m in self.dump()
+            ]
+        )  # type: ignore
         return convex.convex_hull(points)
 
     def export(self, file_obj=None, file_type=None, **kwargs):
